@@ -15,16 +15,16 @@ NOTES = "Property-based testing and fuzzing only. See DESIGN.md. Known findings:
 NOT_APPLICABLE = {}
 CHECKS = {
     "C04": {
-        "text": "Execution of everything the checker accepts: an exhaustive operator x operand-type matrix (23 binary operators x 10 x 10 operand types with variables and literals, unary operators, index, call, range bounds, arguments, attribute, interpolation, iteration, conditions, conversions, raise arguments, assignments, returns: ~5.4k programs), CoreGen programs with 0-3 type-changing edits, and the conforming and mutated cases of the C05/C06/C07/C09 generators. Violation iff the run ends in TypeError, AttributeError, NameError or UnboundLocalError.",
+        "text": "Execution of everything the checker accepts: an exhaustive operator x operand-type matrix (23 binary operators x 15 x 15 operand types incl. tuples, lists of tuples and dicts, with variables and literals, unary operators, index, call, range bounds, function / method arguments, tuple parameters, destructuring, attribute, interpolation, iteration, conditions, conversions, raise arguments, assignments, returns: ~12k programs), CoreGen programs with 0-3 type-changing edits, and the conforming and mutated cases of the C05/C06/C07/C09 generators. Violation iff the run ends in TypeError, AttributeError, NameError or UnboundLocalError.",
         "design_ref": "DESIGN.md section 6 C04",
-        "note": "Only the four exception classes of the statement count. Programs run in-process with a traced-line budget. Matrix cells and edit shapes of five open findings are excluded by construction and counted.",
+        "note": "Only the four exception classes of the statement count. Programs run in-process with a traced-line budget. Matrix cells and edit shapes of the open findings are excluded by construction and counted.",
         "technique": "property-based testing: exhaustive operator/type matrix + type-changing edits, executed against a 'does not go wrong' oracle (Hypothesis)",
     },
     "C09": {
-        "text": "Targeted generation: 18 reject shapes and 13 accept shapes of a read relative to its definition, 5 forms of use, 12 positions; verdict oracle by shape, and every accepted program is executed and must not raise NameError / UnboundLocalError / AttributeError. ~24k cases per quick run.",
+        "text": "Three generators. (1) 18 reject and 13 accept shapes of a read relative to its definition x 5 forms of use x 12 positions. (2) ScopeGen: shadow-heavy programs generated statement by statement together with a model of block scoping (definitions, tuple definitions, loop variables, match bindings, handle variables, parameters, functions, methods); every statement is legal under the model, optionally one read of a name that is not defined on every path is planted at a random slot. (3) explicit __init__ bodies over five fields with the set of definitely assigned fields as model (if/else, if, match, for, nested writes, a parent declaring the same field names); faults: read before assignment, nested write through an unassigned field, field not assigned on every path. Verdict oracle from the model; every accepted program is executed and must not raise NameError / UnboundLocalError / AttributeError. ~24k cases per quick run.",
         "design_ref": "DESIGN.md section 6 C09",
-        "note": "'Defined in both branches, used after' is asserted in neither direction. One open finding (assignment to a top-level variable inside a function lacks `global`) keeps that use form at top level.",
-        "technique": "property-based testing: use-site x definition-shape matrix with a dominance-based verdict oracle and execution of accepted programs (Hypothesis)",
+        "note": "'Defined in both branches, used after' and the visibility of a variable inside the arms of its own `def x := e handle` are asserted in neither direction. A legal ScopeGen program that is rejected is reported only when a diagnostic speaks of an undefined name / unassigned field (the checker's inference gives up on some shadow-heavy programs; counted, left to C05). One open finding (assignment to a top-level variable inside a function lacks `global`) keeps that use form at top level.",
+        "technique": "property-based testing: model-based program generation (scoping / definite-assignment model carried by the generator) with planted faults, verdict oracle from the model and execution of accepted programs (Hypothesis)",
     },
     "C08": {
         "text": "Generated exception forests, a raising callee and an enclosing function or method whose body is a random tree of raising sites nested in branches, loops, match arms, sequences and handles (guarded call, sites inside arms, sites after the handle), with the raise declaration drawn exact / empty / ancestors / random / non-exception; a coverage model decides the expected verdict. ~8k cases per quick run.",
@@ -33,15 +33,15 @@ CHECKS = {
         "technique": "property-based testing: generated handler/declaration structures against a coverage model (Hypothesis)",
     },
     "C07": {
-        "text": "Targeted generation: 12 definition forms (fin or mutable) x 4 assignment operators x 12 positions x 0-2 shadowing re-definitions, plus assignment to undefined names; verdict oracle: reject iff the visible definition, the receiver or self is fin, or the name is undefined. ~11k cases per quick run.",
+        "text": "Two generators. (1) 12 definition forms (fin or mutable) x 4 assignment operators x 12 positions x 0-2 shadowing re-definitions, plus assignment to undefined names. (2) ScopeGen: shadow-heavy programs over small name pools generated together with a model of scoping and mutability (plain / annotated / tuple / annotated tuple definitions, loop variables, bindings, parameters, fin self, fin receivers, nested blocks, functions, methods); every assignment is legal under the model, optionally one assignment to a fin / undefined target (variable, tuple component, field through fin self / fin receiver) is planted. Verdict oracle: reject iff the visible definition, the receiver or self is fin, or the name is undefined. ~32k cases per quick run.",
         "design_ref": "DESIGN.md section 6 C07",
         "note": "For-loop variables and mutating method calls on fin receivers are not judged. One open finding family (fin fields are not protected) redirects three definition forms.",
-        "technique": "property-based testing: definition-form x assignment-position matrix with a visibility-based verdict oracle (Hypothesis)",
+        "technique": "property-based testing: model-based program generation (scope / mutability model) with planted illegal assignments, plus a definition-form x position matrix (Hypothesis)",
     },
     "C06": {
-        "text": "Enumerated matrix inside generated surroundings: 11 consuming positions x 5 sources of null x 4 types for the reject direction, 8 positions x 4 flows x 4 types for the accept direction, each planted at one of 12 statement positions; ~8k cases per quick run, verdict oracle in both directions, matrix counts in the evidence.",
+        "text": "Enumerated matrix inside generated surroundings: 11 consuming positions x 5 sources of null (of the required type or of a proper subtype: Int? into Float, B? into A) x 4 types for the reject direction, 8 positions x 4 flows x 4 types for the accept direction, each planted at one of 12 statement positions; ~8k cases per quick run, verdict oracle in both directions, matrix counts in the evidence.",
         "design_ref": "DESIGN.md section 6 C06",
-        "note": "`x ? d` only with a variable on the left; field reads through nullable receivers are left to C04; unexpected verdicts are re-run 10x (C12). One open finding (if-expression with a None branch into :=, field := and method arguments) redirects 6 cells.",
+        "note": "`x ? d` only with a variable on the left; field reads through nullable receivers are left to C04; unexpected verdicts are re-run 10x (C12).",
         "technique": "property-based testing: position x source matrix with a verdict oracle in both directions (Hypothesis)",
     },
     "C05": {
@@ -51,13 +51,13 @@ CHECKS = {
         "technique": "property-based testing: single-point mutation of conforming uses with a verdict oracle from the declared signatures (Hypothesis)",
     },
     "C15": {
-        "text": "Metamorphic check: CoreGen programs and an injective renaming of their user-chosen names into ordinary and special-looking names; verdicts must agree, the output of the renamed program must be the renamed output (Python ast), and no renamed name may capture an identifier the generator itself introduced (scope-aware, via symtable). Two open findings remove the names they concern from the pool.",
+        "text": "Metamorphic check: CoreGen, API-shaped (members in any order) and WideGen programs and an injective renaming of their user-chosen names into ordinary and special-looking names, chains of prefix-related names, and (a quarter of the cases) a renaming under which any two identifiers are prefix-related; verdicts must agree, the output of the renamed program must be the renamed output (Python ast), and no renamed name may capture an identifier the generator itself introduced (scope-aware, via symtable). Two open findings remove the names they concern from the pool.",
         "design_ref": "DESIGN.md section 6 C15",
-        "note": "User names are recognised by CoreGen's prefix+number form; generator-introduced names are read off out(P). Verdict differences are re-run 10x to separate them from C12's nondeterminism.",
+        "note": "User names are recognised by their letters+number form (every generator numbers its identifiers); generator-introduced names are read off out(P). Verdict differences are re-run 10x to separate them from C12's nondeterminism.",
         "technique": "property-based testing: metamorphic relation under alpha-renaming with a scope-aware capture oracle (Hypothesis)",
     },
     "C16": {
-        "text": "Generated programs in which every support-import trigger (sqrt, nullable/union/tuple/callable/Any types, type aliases, interfaces) occurs at drawn positions with user imports, plus API-shaped and CoreGen programs, both annotate settings; the emitted module is analysed statically (ast + symtable): no unbound global read, each mentioned support name imported exactly once before first use, user imports reproduced.",
+        "text": "Generated programs in which every support-import trigger (sqrt, nullable/union/tuple/callable/Any types, type aliases, interfaces) occurs at drawn positions with user imports, plus API-shaped, CoreGen and WideGen programs (unions with nullable members, user imports of math / typing before and after the use), both annotate settings; the emitted module is analysed statically (ast + symtable): no unbound global read, each mentioned support name imported exactly once (plus the user's own imports of that name, reproduced where they stand) before first use, user imports reproduced.",
         "design_ref": "DESIGN.md section 6 C16",
         "note": "symtable/ast of CPython 3.11 decide scoping; reads in annotations count; nothing is executed.",
         "technique": "property-based testing: generated trigger x position programs with a static free-name / import oracle (Hypothesis)",
@@ -69,43 +69,43 @@ CHECKS = {
         "technique": "property-based testing: model-derived expected API vs emitted ast (Hypothesis)",
     },
     "C20": {
-        "text": "Complete tabulation of is_superset_of over a finite universe per generated hierarchy (every plain class of the context, List/Set/Dict/Tuple instantiations to depth 2, nullable variants, unions of two, mixed-nullability unions, both bracketings of unions of three; ~200-450 terms, all ordered pairs, twice from freshly built names) and exhaustive evaluation of the order and union laws on the matrix; Hypothesis varies the hierarchy.",
+        "text": "Complete tabulation of is_superset_of over a finite universe per generated hierarchy (every plain class of the context, List/Set/Dict/Tuple instantiations to depth 2 incl. 2-3-argument generics that differ in the first / middle / last argument, nullable variants, unions of two, mixed-nullability unions, both bracketings of unions of three, and names the checker itself builds from source annotations: twins of constructed names and source-written unions in every nullability pattern; ~300-500 terms, all ordered pairs, twice from freshly built names) and exhaustive evaluation of the order and union laws on the matrix; Hypothesis varies the hierarchy.",
         "design_ref": "DESIGN.md section 6 C20",
-        "note": "Reference order on plain classes = closure of the parents the context itself reports. Variance of generics and None-vs-Any are not asserted. Function types only for reflexivity. The worker's lattice op only tabulates.",
+        "note": "Reference order on plain classes = closure of the parents the context itself reports. Variance of generics is not asserted, only that instantiations whose arguments are unrelated in some position are unrelated; None-vs-Any is not asserted. Function types only for reflexivity. The worker's lattice op only tabulates.",
         "technique": "property-based testing: exhaustive small-scope enumeration of a relation per generated hierarchy, algebraic-law oracle (Hypothesis)",
     },
     "C19": {
-        "text": "Fault injection at a known line of accepted generated programs and samples (7 fault kinds, top level and nested blocks, single- and multi-file), mutated samples, all invalid repository samples and a catalogue of context/lexical/end-of-input errors; the rendered diagnostics are parsed leniently and judged against the source text (path, line/column range, verbatim quoted lines, fault line reported).",
+        "text": "Fault injection at a known line of accepted generated programs and samples (8 fault kinds incl. a return annotation that disagrees with a value returned lines below, top level and nested blocks, 40% after a prelude with line breaks inside string literals / doc-strings, single- and multi-file), mutated samples, all invalid repository samples and a catalogue of context/lexical/end-of-input errors; the rendered diagnostics are parsed leniently and judged against the source text (path, line/column range, verbatim quoted lines, fault line reported).",
         "design_ref": "DESIGN.md section 6 C19",
         "note": "Judges the rendered strings returned by mamba_to_python (what a user sees); the TypeErr.causes hook is not needed. Statements are injected only between two complete one-line statements of equal indentation; injected literals are unique in the file (open finding F37).",
         "technique": "property-based testing: fault injection with a positional/well-formedness oracle over rendered diagnostics (Hypothesis)",
     },
     "C13": {
-        "text": "Generated projects (1-5 files, nested directories, cross-file class/function use, optional single faulty file, fresh or pre-populated output directory, custom directory names) run through mamba::transpile_dir in a scratch directory with a before/after snapshot of the whole tree, plus permutations of the file list, an added unrelated file and a removed used file through mamba_to_python.",
+        "text": "Generated projects (1-5 files, nested directories, cross-file class/function use, optional single faulty file, zero-byte / newline-only / comment-only files, fresh or pre-populated output directory incl. longer outputs of an earlier run at the output paths, custom directory names, second runs after one file was made shorter / longer) run through mamba::transpile_dir in a scratch directory with a before/after snapshot of the whole tree, plus permutations of the file list, an added unrelated file and a removed used file through mamba_to_python.",
         "design_ref": "DESIGN.md section 6 C13",
         "note": "The binary's main() only parses options and calls transpile_dir; the check drives transpile_dir directly. Work directories under /verif/work are removed after each case.",
         "technique": "property-based testing: generated project histories with file-system snapshot invariants and permutation/extension/removal metamorphic relations (Hypothesis)",
     },
     "C14": {
-        "text": "Metamorphic check over ~3k (quick) generated programs and repository samples: a variant with 1-4 layout trivia (trailing/whole-line comments, blank and whitespace-only lines, trailing spaces, final newline, CRLF, doubled grouping parentheses) must get the same verdict and byte-identical Python (equal Python ast for parentheses).",
+        "text": "Metamorphic check over ~3k (quick) generated programs (CoreGen, typed expressions, API-shaped, WideGen) and repository samples: a variant with 1-4 layout trivia (trailing/whole-line comments, blank and whitespace-only lines, trailing spaces, final newline, CRLF, doubled grouping parentheses) must get the same verdict and byte-identical Python (equal Python ast for parentheses).",
         "design_ref": "DESIGN.md section 6 C14",
         "note": "Code lines are recognised by quote parity (inputs with multi-line strings are replaced by a fixed program); verdict differences are re-run 12x to separate them from C12's nondeterminism.",
         "technique": "property-based testing: metamorphic relation under layout-preserving transformations (Hypothesis)",
     },
     "C12": {
-        "text": "History/schedule invariant over one input: every generated program, repository sample and two-file project is transpiled >=20 times (same process, concurrent threads, fresh processes, after a history of other inputs); verdicts must agree and successful outputs must be byte-identical. Each repetition redraws the hash seeds, which is the only schedule-dependent input of a program without shared state.",
+        "text": "History/schedule invariant over one input: every generated program, repository sample and two-file project is transpiled >=20 times (same process, concurrent threads, fresh processes, after a history of other inputs in another process, and at the end of a same-thread history of related programs: same classes with other types, a type fault appended, a syntax fault); verdicts must agree and successful outputs must be byte-identical. Each repetition redraws the hash seeds, which is the only schedule-dependent input of a program without shared state.",
         "design_ref": "DESIGN.md section 6 C12",
         "note": "Thread interleavings are not controlled (no shared mutable state in src/); a two-outcome dependence with probability p is missed with probability about (1-p)^20 + p^20 per input.",
         "technique": "property-based testing: repeated-run / multi-thread / multi-process determinism oracle over generated inputs (Hypothesis)",
     },
     "C02": {
-        "text": "Generated-input search: CoreGen and typed-expression programs, all repository samples, their token-level mutations and a literal/identifier stress generator, both annotate settings; every emitted module must pass CPython's compile(). Sampled; three input classes of open known findings are filtered on the input and counted.",
+        "text": "Generated-input search: CoreGen and typed-expression programs, WideGen programs (builders with conditions, unions / tuples / function types in every annotation position, with, vararg, doc-strings, imports, ...), all repository samples, their token-level mutations, a literal/identifier stress generator and a shape stress generator (parameter lists x definition sites, definition targets x initialiser forms, value positions x if / match forms, nested ternaries with blocks), both annotate settings; every emitted module must pass CPython's compile(). Sampled; the input class of the open known finding F27 is filtered on the input and counted.",
         "design_ref": "DESIGN.md section 6 C02",
         "note": "CPython 3.11 is 'the Python 3 compiler'; only compile(), never execution.",
         "technique": "property-based testing: grammar-based and mutation-based generation against CPython's compiler as oracle (Hypothesis)",
     },
     "C11": {
-        "text": "Differential check over ~4k (quick) generated programs, 1-mutation variants and every repository sample: annotate off vs on must give the same verdict and, after syntactic erasure of annotations and unused typing imports, identical Python ASTs.",
+        "text": "Differential check over ~4k (quick) generated programs (CoreGen, typed expressions, API-shaped incl. vararg, WideGen), 1-mutation variants and every repository sample: annotate off vs on must give the same verdict and, after syntactic erasure of annotations and unused typing imports, identical Python ASTs.",
         "design_ref": "DESIGN.md section 6 C11",
         "note": "Erasure rules: AnnAssign->Assign, argument/return annotations dropped, unused `typing` imports dropped; unparsable output is left to C02.",
         "technique": "property-based testing: metamorphic/differential comparison of two configurations (Hypothesis)",
